@@ -101,10 +101,14 @@ func runC07(t *testing.T, seed uint64, m *Mask) *Report {
 				return nil
 			}}
 		}
-		peers := []erpc.Peer{e.NewPeer("srv", erpc.PeerConfig{}, mkRec("rec-srv"))}
+		// an accept hook placed before the refusing one names the session (as an identify/auth plugin would):
+		// a connection refused afterwards must still vanish from the index
+		namer := &c07Namer{on: func() bool { return rejectAccept && e.Gen.Chance(0.5) }}
+		peers := []erpc.Peer{e.NewPeer("srv", erpc.PeerConfig{}, namer, mkRec("rec-srv"))}
 		routes := []world.Routes{e.RegisterStd(peers[0])}
 		for i := 0; i < nCli; i++ {
-			p := e.NewPeer(fmt.Sprintf("cli%d", i), erpc.PeerConfig{}, mkRec(fmt.Sprintf("rec-cli%d", i)))
+			dnamer := &c07Namer{on: func() bool { return rejectDial && e.Gen.Chance(0.5) }}
+			p := e.NewPeer(fmt.Sprintf("cli%d", i), erpc.PeerConfig{}, dnamer, mkRec(fmt.Sprintf("rec-cli%d", i)))
 			peers = append(peers, p)
 			routes = append(routes, e.RegisterStd(p))
 		}
@@ -456,4 +460,21 @@ func checkC07Logs(e *world.Env, ends []*c07End, pairs []*c07Pair, trace []string
 			}
 		}
 	}
+}
+
+// c07Namer is a PostAccept plugin that gives the session an id when asked to.
+type c07Namer struct{ on func() bool }
+
+func (n *c07Namer) Name() string { return "namer" }
+func (n *c07Namer) PostDial(s erpc.PreSession, isRedial bool) *erpc.Status {
+	if n.on() {
+		s.SetID("named-dial-" + s.LocalAddr().String())
+	}
+	return nil
+}
+func (n *c07Namer) PostAccept(s erpc.PreSession) *erpc.Status {
+	if n.on() {
+		s.SetID("named-" + s.RemoteAddr().String())
+	}
+	return nil
 }
